@@ -411,7 +411,8 @@ func (tt *typeTab) wf(t types.Type, v Term, al Term) Term {
 			return And(Le(BigLit(lo), v), Le(v, BigLit(hi)))
 		}
 		if u.Info()&types.IsString != 0 {
-			return Ge(Term{app("slen_", v), SInt}, IntLit(0))
+			// a string's length is a non-negative int; no string outgrows the address space
+			return And(Ge(Term{app("slen_", v), SInt}, IntLit(0)), Le(Term{app("slen_", v), SInt}, BigLit(pow2Big(62))))
 		}
 		return True
 	case *types.Pointer, *types.Map, *types.Chan:
